@@ -79,6 +79,13 @@ def Entries (d : AMap V) (l : List (Bytes × V)) : Prop :=
 /-- `d` has exactly `n` keys. -/
 def HasLen (d : AMap V) (n : Nat) : Prop := ∃ l, Entries d l ∧ l.length = n
 
+/-- two dictionaries have the same keys and `R`-related values (`R := Eq`: they are equal) -/
+def DictRel (R : V → V → Prop) (d₁ d₂ : AMap V) : Prop :=
+  ∀ k, match d₁ k, d₂ k with
+    | none, none => True
+    | some a, some b => R a b
+    | _, _ => False
+
 /-! ## the operations of `serde_json::Map` and what they return -/
 
 /-- which removal: `remove` (whatever the build forwards it to), `swap_remove`, `shift_remove` -/
